@@ -80,6 +80,16 @@ func init() {
 		"strings.Compare": func(e *Exec, st *State, a []Val, x *ast.CallExpr) Val {
 			return Val{T: Ite(App(SBool, "str.<", a[0].T, a[1].T), IntLit(-1), Ite(Eq(a[0].T, a[1].T), IntLit(0), IntLit(1))), GT: intT}
 		},
+		// utf8.DecodeRune: consumes 1..4 bytes of a non-empty buffer (0 of an empty one); a multi-byte encoding
+		// consists of bytes >= 0x80 only
+		"unicode/utf8.DecodeRune": func(e *Exec, st *State, a []Val, x *ast.CallExpr) Val {
+			r := e.freshVal("rune", types.Typ[types.Rune])
+			n := e.sc.Fresh("runelen", SInt)
+			p := a[0].T
+			e.assume(st, Ite(Eq(SlcLen(p), IntLit(0)), Eq(n, IntLit(0)), And(Le(IntLit(1), n), Le(n, IntLit(4)), Le(n, SlcLen(p)))))
+			e.assume(st, T(SBool, fmt.Sprintf("(forall ((i Int)) (! (=> (and (> %s 1) (<= 0 i) (< i %s)) (>= (select (slc_arr %s) i) 128)) :pattern ((select (slc_arr %s) i))))", n.S, n.S, p.S, p.S)))
+			return Val{Tuple: []Val{r, {T: n, GT: intT}}}
+		},
 		// slices.Clip: same slice, no spare capacity
 		"slices.Clip": func(e *Exec, st *State, a []Val, x *ast.CallExpr) Val {
 			v := a[0]
